@@ -24,10 +24,10 @@ import (
 
 const kfStaleResult = "KF-C07-stale-cached-result"
 
-var c07bKinds = []string{"send", "send", "send", "send-self", "send-broke", "double-spend", "stake-new", "edit-stake-up", "pause", "unstake", "subsidy", "bad-sig", "create-order"}
+var c07bKinds = []string{"send", "send", "send", "send-self", "send-broke", "double-spend", "stake-new", "edit-stake-up", "pause", "unstake", "subsidy", "bad-sig", "create-order", "create-order", "lock-orders", "lock-orders"}
 
 var badKinds = []string{"hdr-state-root", "hdr-tx-root", "hdr-validator-root", "hdr-next-validator-root", "hdr-total-txs", "hdr-num-txs", "hdr-last-block-hash", "hdr-proposer",
-	"hdr-height", "hdr-network", "failing-tx", "failing-tx", "failing-tx", "dup-tx", "drop-tx", "results-swap", "results-swap", "lastqc-sig", "lastqc-payload", "lastqc-partial", "lastqc-alt+state-root", "lastqc-alt+state-root", "lastqc-alt+failing-tx",
+	"hdr-height", "hdr-network", "failing-tx", "failing-tx", "failing-tx", "dup-tx", "drop-tx", "results-swap", "results-swap", "lastqc-sig", "lastqc-payload", "lastqc-partial", "lastqc-alt+state-root", "lastqc-alt+state-root", "lastqc-alt+failing-tx", "lastqc-bitmap-len", "lastqc-bitmap-len",
 	"cert-below-threshold", "cert-sig-garbled", "cert-extra-bits", "cert-wrong-phase"}
 
 func mm(m any) []byte {
@@ -50,6 +50,7 @@ type world7 struct {
 	// skipCerts: N accepted an unverified certificate version while syncing; its last indexed certificate differs from the
 	// twin's until the next block re-indexes it from its header
 	skipCerts bool
+	forceKind string // the next bad offer must be of this kind (plan)
 }
 
 func (x *world7) fatalf(format string, a ...any) {
@@ -64,9 +65,12 @@ func TestC07bBlockAtomicity(t *testing.T) {
 // bad builds a bad variant of a good proposal; returns the certificate to offer, the delivery mode and a description.
 // modes: "validate" (ValidateProposal), "peer" (HandlePeerBlock live; needs a verifying certificate unless the
 // certificate itself is the bad part), "sync" (HandlePeerBlock while syncing: certificates are not verified)
-func (x *world7) bad(p *nodesim.Proposal, good *lib.QuorumCertificate, vs lib.ValidatorSet) (qc *lib.QuorumCertificate, kind string, lateWrites, certOnly, validateOnly bool) {
+func (x *world7) bad(p *nodesim.Proposal, good *lib.QuorumCertificate, vs lib.ValidatorSet) (qc *lib.QuorumCertificate, kind string, lateWrites, certOnly, validateOnly, syncOnly bool) {
 	t := x.t
 	kind = rapid.SampledFrom(badKinds).Draw(t, "badKind")
+	if x.forceKind != "" {
+		kind, x.forceKind = x.forceKind, ""
+	}
 	blk := new(lib.Block)
 	if err := lib.Unmarshal(p.Block, blk); err != nil {
 		x.fatalf("decode: %v", err)
@@ -172,6 +176,16 @@ func (x *world7) bad(p *nodesim.Proposal, good *lib.QuorumCertificate, vs lib.Va
 			blk.Transactions = append(blk.Transactions, bad.Bytes)
 		}
 		lateWrites = true
+	case "lastqc-bitmap-len":
+		// the embedded last certificate keeps its payload but carries a signer bitmap of the wrong length: a syncing node does
+		// not verify that signature, indexes the certificate and fails INSIDE BeginBlock (non-signer accounting) - after the
+		// certificate results of the last height (order locks, ...) have already emitted their events
+		if hd.Height <= 1 {
+			hd.StateRoot, kind, lateWrites = flip(hd.StateRoot), "hdr-state-root", true
+			break
+		}
+		hd.LastQuorumCertificate.Signature.Bitmap = append(append([]byte(nil), hd.LastQuorumCertificate.Signature.Bitmap...), 0x01)
+		lateWrites, syncOnly = true, true
 	case "lastqc-sig", "lastqc-payload", "lastqc-partial":
 		if hd.Height <= 1 {
 			hd.StateRoot, kind, lateWrites = flip(hd.StateRoot), "hdr-state-root", true
@@ -245,7 +259,7 @@ func (x *world7) bad(p *nodesim.Proposal, good *lib.QuorumCertificate, vs lib.Va
 			qc.Signature.Bitmap[i/8] |= 1 << uint(i%8)
 		}
 	}
-	return qc, kind, lateWrites, certOnly, validateOnly
+	return qc, kind, lateWrites, certOnly, validateOnly, syncOnly
 }
 
 func runC07b(t *rapid.T, rec *ev.Rec) {
@@ -254,6 +268,20 @@ func runC07b(t *rapid.T, rec *ev.Rec) {
 	defer x.sim.Close()
 	x.w = nodesim.GenWorld(t, 1)
 	x.ring = nodesim.NewKeyRing(x.w.NVals + x.w.Spare)
+	x.w.OpenOrders = func() [][]byte {
+		x.sim.Activate(x.a)
+		book, err := x.a.C.FSM.GetOrderBook(1)
+		if err != nil {
+			return nil
+		}
+		var ids [][]byte
+		for _, o := range book.Orders {
+			if len(o.BuyerReceiveAddress) == 0 {
+				ids = append(ids, o.Id)
+			}
+		}
+		return ids
+	}
 	gen := x.w.Genesis(0)
 	mk := func(name string, key int) *nodesim.Node {
 		n, err := x.sim.NewNode(nodesim.NodeOpts{Name: name, Genesis: gen, Key: keys.BLS(key % x.w.NVals)})
@@ -268,8 +296,23 @@ func runC07b(t *rapid.T, rec *ev.Rec) {
 	nBad, nLate, modes := 0, 0, map[string]bool{}
 	var rejectedTxs [][]byte
 	goodHeights := 0
+	// plan (2 of 3 histories): sell orders at the first height, all locked at the second, and at the third height a bad block
+	// that fails INSIDE BeginBlock after the certificate results of the second height (order locks) emitted their events
+	plan := rapid.SampledFrom([]bool{true, true, false}).Draw(t, "beginBlockPlan")
+	cs.ClassIf(plan, "plan:rejection-inside-BeginBlock-after-events")
 	for ei := 0; ei < events; ei++ {
 		ht := x.a.Height()
+		if plan && ei <= 1 {
+			kinds := []string{"create-order", "create-order"}
+			if ei == 1 {
+				kinds = []string{"lock-orders"}
+			}
+			for _, k := range kinds {
+				for _, tx := range x.w.GenTx(t, ht, []string{k}) {
+					_, _, _ = x.a.AddTx(tx.Bytes), x.n.AddTx(tx.Bytes), x.tw.AddTx(tx.Bytes)
+				}
+			}
+		}
 		for k := rapid.IntRange(2, 7).Draw(t, "nTx"); k > 0; k-- {
 			for _, tx := range x.w.GenTx(t, ht, c07bKinds) {
 				// gossip: every node's mempool sees the transaction
@@ -293,14 +336,24 @@ func runC07b(t *rapid.T, rec *ev.Rec) {
 		_ = lib.Unmarshal(p.Block, gblk)
 		// 0..3 bad offers before the good block of this height
 		holds := false // N holds the validated good proposal of this height
-		for k := rapid.IntRange(0, 3).Draw(t, "nBad"); k > 0; k-- {
-			qc, kind, late, certOnly, validateOnly := x.bad(p, good, vs)
+		nBadHere := rapid.IntRange(0, 3).Draw(t, "nBad")
+		if plan && ei == 2 {
+			x.forceKind = "lastqc-bitmap-len"
+			if nBadHere == 0 {
+				nBadHere = 1
+			}
+		}
+		for k := nBadHere; k > 0; k-- {
+			qc, kind, late, certOnly, validateOnly, syncOnly := x.bad(p, good, vs)
 			mode := rapid.SampledFrom([]string{"validate", "peer", "sync", "sync"}).Draw(t, "mode")
 			if certOnly && mode == "validate" {
 				mode = "peer" // ValidateProposal does not look at the certificate's signature
 			}
 			if validateOnly {
 				mode = "validate"
+			}
+			if syncOnly {
+				mode = "sync"
 			}
 			if mode == "sync" && (kindClass(kind) == "lastqc-sig" || kindClass(kind) == "lastqc-partial") {
 				mode = "peer" // fast-sync does not re-verify the signature of the embedded last certificate (by design)
@@ -501,6 +554,23 @@ func (x *world7) compareCommitted(when string, certs bool) {
 	}
 	if hn != nil && !bytes.Equal(storemodel.Root(cn), hn.StateRoot) {
 		x.fatalf("VIOLATION C07/C08: N's committed state does not hash to the state root of its last header %s", when)
+	}
+	// the indexed block RESULT of the last height (transaction results and EVENTS) agrees: nothing of a rejected block
+	// (e.g. events emitted before its BeginBlock failed) may show up in the next committed block
+	if hn != nil {
+		x.sim.Activate(x.n)
+		bn, e1 := x.n.C.FSM.LoadBlock(hn.Height)
+		x.sim.Activate(x.tw)
+		bt, e2 := x.tw.C.FSM.LoadBlock(hn.Height)
+		if e1 != nil || e2 != nil {
+			x.fatalf("load block result: %v %v", e1, e2)
+		}
+		if len(bn.Events) != len(bt.Events) || !bytes.Equal(mm(&lib.BlockResult{Events: bn.Events}), mm(&lib.BlockResult{Events: bt.Events})) {
+			x.fatalf("VIOLATION C07: the block N committed at height %d carries %d events, its twin's %d (events of a rejected block survived) %s", hn.Height, len(bn.Events), len(bt.Events), when)
+		}
+		if !bytes.Equal(mm(&lib.BlockResult{Transactions: bn.Transactions}), mm(&lib.BlockResult{Transactions: bt.Transactions})) {
+			x.fatalf("VIOLATION C07: transaction results of height %d differ between N and its twin %s", hn.Height, when)
+		}
 	}
 	// indexed certificates of the last height agree
 	if hn != nil && certs && !x.skipCerts {
